@@ -30,6 +30,13 @@ pub struct AllocCase<V> {
 }
 
 pub fn decode<S: Spec>(t: &mut Tape) -> AllocCase<S::V> {
+    if t.chance(2) {
+        // megabyte batch: ~18 copies of one very large value (64 KiB string / 70 000 elements)
+        let gp = Gp { mega: true, ..Gp::normal() };
+        let v = S::gen(t, &gp);
+        let n = 17 + t.below(4);
+        return AllocCase { prefix: Vec::new(), batch: vec![v; n], route: t.below(3) as u8, nsrc: 1 + t.below(3) as u8, form: Vec::new() };
+    }
     let gp = match t.below(4) {
         0 => Gp::small(),
         1 => Gp { big: true, ..Gp::normal() },
